@@ -1,3 +1,71 @@
-import Zed.Model.BranchCommit
+/-
+  C12 — branch and metadata updates are linearizable; accepted commits stay replayable.
+  Property theorems only.  Model: Zed/Model/{StoreEngine,JournalQueue,BranchCommit}.lean — the
+  labelled transition system of DESIGN.md §4 L5 (one `step c` = one storage operation of client c,
+  atomic puts).  All theorems quantify over every label sequence, i.e. every number of clients,
+  every history of started procedures and every interleaving; nothing is bounded.
+  `Reach j s`: s is reachable from a state where journal j is freshly created by labels that do
+  not delete pool j (for the lake-level `pools/` journal, j = 0, every label sequence qualifies:
+  `reach_pools`).
+-/
+import Zed.Proofs.StoreJournal
 namespace Zed.Props.C12
+open Zed.Store
+
+/-- Every state a lake can get into is `Reach 0` (pools journal): no hypothesis on the labels. -/
+theorem reach_pools (ls : List Label) : Reach 0 (Sys.init.run ls) :=
+  ⟨Sys.init, ls, init_fresh, noReset_zero ls, rfl⟩
+
+/-- **journal_linear** — in every reachable state the entries of journal j are exactly the
+    positions 1..e (contiguous, none missing, none beyond), and HEAD is e or e-1. -/
+theorem journal_linear (j : Nat) (s : Sys) (h : Reach j s) :
+    ∃ e, (∀ n, (s.store (.ent j n)).isSome ↔ (1 ≤ n ∧ n ≤ e)) ∧
+      headOf s.store j ≤ e ∧ e ≤ headOf s.store j + 1 := by
+  obtain ⟨e, he⟩ := h.inv1
+  exact ⟨e, he.range, he.he, he.eh⟩
+
+/-- **entry_created_once** — an entry, once created, is never created again or changed: it
+    keeps its value in every later state (so entry n+1 is created exactly once; the loser of the
+    put-if-absent race writes nothing). -/
+theorem entry_created_once (j : Nat) (s : Sys) (h : Reach j s) (ls : List Label) (hn : NoReset j ls)
+    (n : Nat) (v : SVal) (hv : s.store (.ent j n) = some v) : (s.run ls).store (.ent j n) = some v := by
+  obtain ⟨e, he⟩ := h.inv1
+  obtain ⟨_, _, _, _, hent⟩ := inv1_run ls he hn
+  exact hent n v hv
+
+/-- **head_monotone** — HEAD never regresses. -/
+theorem head_monotone (j : Nat) (s : Sys) (h : Reach j s) (ls : List Label) (hn : NoReset j ls) :
+    headOf s.store j ≤ headOf (s.run ls).store j := by
+  obtain ⟨e, he⟩ := h.inv1
+  obtain ⟨_, _, _, hh, _⟩ := inv1_run ls he hn
+  exact hh
+
+/-- **head_writer_is_creator** — the causality behind `head_monotone`: a client about to write
+    HEAD = n is the (unique) creator of entry n, entry n is the last one, and HEAD is still n-1.
+    A change that writes HEAD before the entry, or lets the loser of the race write it, breaks
+    this proof. -/
+theorem head_writer_is_creator (j : Nat) (s : Sys) (h : Reach j s) (c n : Nat)
+    (hc : (s.cl c).pcOn j = some (.putHead n)) :
+    (s.store (.ent j n)).isSome ∧ s.store (.ent j (n + 1)) = none ∧ headOf s.store j + 1 = n ∧
+      ∀ c' n', (s.cl c').pcOn j = some (.putHead n') → c' = c := by
+  obtain ⟨e, he⟩ := h.inv1
+  obtain ⟨hne, hH⟩ := he.ph c n hc
+  subst hne
+  refine ⟨(he.range n).mpr (by omega), ?_, hH, fun c' n' hc' => he.uniq c' c n' n hc' hc⟩
+  have := (he.range (n + 1))
+  cases hx : s.store (.ent j (n + 1)) with
+  | none => rfl
+  | some v => rw [hx] at this; simp at this; omega
+
+/-! Non-vacuity: the hypotheses are satisfiable and the system does move. -/
+
+/-- A concrete run on the pools journal: client 0 inserts key 1, client 1 inserts key 2,
+    interleaved so that client 1 loses the put-if-absent race once and retries. -/
+def demoLabels : List Label :=
+  [.start 0 (.commit 0 0 (.insert 1 7)), .start 1 (.commit 0 0 (.insert 2 8)),
+   .step 0, .step 1, .step 0, .step 1, .step 0, .step 1, .step 1, .step 1, .step 1, .step 1, .step 1, .step 1]
+
+example : headOf (Sys.init.run demoLabels).store 0 = 2 := by decide
+example : Reach 0 (Sys.init.run demoLabels) := reach_pools _
+
 end Zed.Props.C12
